@@ -59,6 +59,11 @@ func (p *Point) UnmarshalCBOR(data []byte) error {
 		}
 		p.Slot = slot
 		p.Hash = hash
+	} else if len(tmp) != 0 {
+		return fmt.Errorf(
+			"Point must be empty or a [slot, hash] pair, got %d elements",
+			len(tmp),
+		)
 	}
 	return nil
 }
